@@ -123,6 +123,11 @@ func init() {
 		Prop: "C06", Name: "ctor/all", Quick: 60000, Thorough: 600000, Shards: 4,
 		Rule: "a value specification of any kind (depth <= 3; nulls, refined unknowns, DynamicVal, marks at every depth, capsules, NFC-changing strings/keys/attribute names) built through the public constructors (BoolVal ... ObjectVal, SetVal, NullVal, UnknownVal + Refine().NewValue(), Mark); then UnmarkDeep, UnknownAsNull and a rebuild through AsValueSlice/AsValueMap; " + ntRule,
 		Gen: func(t *rapid.T) spec.V {
+			if rapid.IntRange(0, 11).Draw(t, "capsuleset") == 6 {
+				// a set of values of a capsule type without a hash key: all its
+				// members share one hash bucket
+				return gen.Value(spec.Set(spec.CapsuleT("A")), gen.ValOpts{MaxElems: 4, RootKnown: true}).Draw(t, "capset")
+			}
 			return gen.AnyValue(gen.TypeOpts{Depth: 3, Dynamic: true, Capsule: true}, valOpts).Draw(t, "v")
 		},
 		Check: func(c *facet.Ctx, in spec.V) error {
@@ -150,6 +155,34 @@ func init() {
 				v.MarkWithPaths([]cty.PathValueMarks{{Path: cty.Path{}, Marks: cty.NewValueMarks(spec.Mark("p"))}}),
 			); err != nil {
 				return err
+			}
+			// a set and the same set built from its members in reverse order are one
+			// value: a set of the two - through the constructor, through a ValueSet and
+			// through list-to-set conversion - holds a single member
+			if in.T.K == spec.KSet && in.St == spec.Known && len(in.Elems) >= 2 && in.WhollyKnown() && !in.HasMarks() {
+				twin := in.Clone()
+				for i, j := 0, len(twin.Elems)-1; i < j; i, j = i+1, j-1 {
+					twin.Elems[i], twin.Elems[j] = twin.Elems[j], twin.Elems[i]
+				}
+				if tv, err := spec.Build(twin); err == nil {
+					c.Label("set-of-permuted-twins")
+					var outs []cty.Value
+					guardedPanic(func() { outs = append(outs, cty.SetVal([]cty.Value{v, tv}), cty.SetVal([]cty.Value{tv, v})) })
+					guardedPanic(func() {
+						vs := cty.NewValueSet(v.Type())
+						vs.Add(v)
+						vs.Add(tv)
+						outs = append(outs, cty.SetValFromValueSet(vs))
+					})
+					guardedPanic(func() {
+						if r, err := convert.Convert(cty.ListVal([]cty.Value{v, tv, v}), cty.Set(v.Type())); err == nil {
+							outs = append(outs, r)
+						}
+					})
+					if err := wfAll(c, "a set built from a set value and its permuted twin", outs...); err != nil {
+						return err
+					}
+				}
 			}
 			// the marking APIs given empty mark sets (nil, empty literal, the empty
 			// set UnmarkDeep returns for an unmarked value, NewValueMarks()) must
